@@ -2519,22 +2519,33 @@ class ProvDocument(ProvBundle):
             stream = destination
             serializer.serialize(stream, **args)
         else:
-            location = destination
+            location = os.fspath(destination)
             scheme, netloc, path, params, _query, fragment = urlparse(location)
             if netloc != "":
                 print(
                     "WARNING: not saving as location " + "is not a local file reference"
                 )
                 return
-            fd, name = tempfile.mkstemp()
-            stream = os.fdopen(fd, "wb")
-            serializer.serialize(stream, **args)
-            stream.close()
-            if hasattr(shutil, "move"):
-                shutil.move(name, path)
-            else:
-                shutil.copy(name, path)
-                os.remove(name)
+            if scheme != "file":
+                # a plain local file name: use it as it is ('#', '?', ';' and
+                # ':' are ordinary characters in file names, not URL syntax)
+                path = location
+            # Writing to a temporary file in the destination's directory and
+            # moving it into place, so that the destination is either written
+            # completely or left untouched
+            fd, name = tempfile.mkstemp(
+                dir=os.path.dirname(os.path.abspath(path)), prefix=".prov-tmp-"
+            )
+            try:
+                with os.fdopen(fd, "wb") as stream:
+                    serializer.serialize(stream, **args)
+                os.replace(name, path)
+            except BaseException:
+                try:
+                    os.remove(name)
+                except OSError:
+                    pass
+                raise
 
     @staticmethod
     def deserialize(source=None, content=None, format="json", **args):
